@@ -1,6 +1,7 @@
 package checks
 
 import (
+	"context"
 	"crypto/sha256"
 	"encoding/json"
 	"fmt"
@@ -12,6 +13,7 @@ import (
 	"strconv"
 	"strings"
 	"sync"
+	"time"
 
 	"verif/explore"
 	"verif/report"
@@ -115,10 +117,24 @@ func seedsBinary() string {
 // c08Envs limits the block environments of the world being explored (set per world by the check).
 var c08Envs int
 
+// c08Deadline: workers still running at this time are killed (the world is then not judged).
+var c08Deadline time.Time
+
+var errC08Deadline = fmt.Errorf("time budget of the tier exhausted")
+
 func runC08Worker(cfg c08Config, args []string) error {
-	cmd := exec.Command(seedsBinary(), append([]string{"c08worker"}, args...)...)
+	ctx := context.Background()
+	if !c08Deadline.IsZero() {
+		var cancel context.CancelFunc
+		ctx, cancel = context.WithDeadline(ctx, c08Deadline)
+		defer cancel()
+	}
+	cmd := exec.CommandContext(ctx, seedsBinary(), append([]string{"c08worker"}, args...)...)
 	cmd.Env = append(os.Environ(), fmt.Sprintf("VERIF_MAPSEED=%d", cfg.Seed), fmt.Sprintf("GOMAXPROCS=%d", cfg.Procs), fmt.Sprintf("GOGC=%d", cfg.GC), fmt.Sprintf("VERIF_C08_ENVS=%d", c08Envs))
 	out, err := cmd.CombinedOutput()
+	if ctx.Err() != nil {
+		return errC08Deadline
+	}
 	if err != nil {
 		return fmt.Errorf("%s: %v: %s", cfg, err, out)
 	}
@@ -167,7 +183,8 @@ func init() {
 		// histories in the staking / order-book worlds, and the worlds with more than 100 candidates
 		// (the structures whose iteration order matters are the ones with many entries)
 		worldsQ := []wr{{"pay", 2, 2, 1, 0}, {"coin", 2, 2, 1, 0}, {"stake", 2, 2, 2, 1}, {"book", 1, 1, 2, 0}, {"stakemany", 1, 1, 3, 1}, {"stakemanytie", 2, 2, 2, 1}}
-		worldsT := []wr{{"pay", 3, 2, 3, 0}, {"coin", 3, 2, 3, 0}, {"stake", 2, 2, 2, 0}, {"book", 2, 2, 2, 0}, {"pool", 2, 2, 2, 0}, {"stakemany", 2, 1, 3, 1}, {"stakemanytie", 2, 2, 3, 1}, {"stakemany102", 1, 1, 3, 1}}
+		// thorough: deeper histories, 64 seeds x GOMAXPROCS {1,16}; cheapest worlds first, the time budget cuts the tail
+		worldsT := []wr{{"stakemanytie", 2, 2, 3, 1}, {"stakemany102", 1, 1, 3, 1}, {"stakemany", 2, 1, 3, 1}, {"book", 2, 2, 2, 0}, {"stake", 2, 2, 2, 1}, {"pool", 2, 2, 1, 0}, {"coin", 2, 2, 2, 0}, {"pay", 2, 2, 2, 0}, {"stake", 1, 1, 2, 0}}
 		var cfgs []c08Config
 		if c.Quick() {
 			// seed = start bucket << 3 | in-bucket offset: 16 different start buckets, all 8 offsets
@@ -189,7 +206,13 @@ func init() {
 		distinct := map[string]bool{}
 		var samples []interface{}
 		exhaustive := true
+		c08Deadline = c.Deadline
 		for _, w := range worldsQ {
+			if time.Now().After(c.Deadline) {
+				exhaustive = false
+				fmt.Printf("  world %-8s skipped: the time budget of the tier is used up\n", w.world)
+				continue
+			}
 			c08Envs = w.envs
 			files := make([]string, len(cfgs))
 			errs := make([]error, len(cfgs))
@@ -206,6 +229,17 @@ func init() {
 				}(i, cfg)
 			}
 			wg.Wait()
+			timedOut := false
+			for _, e := range errs {
+				if e == errC08Deadline {
+					timedOut = true
+				}
+			}
+			if timedOut {
+				exhaustive = false
+				fmt.Printf("  world %-8s not judged: the time budget of the tier ran out while its configurations were running\n", w.world)
+				continue
+			}
 			for i, e := range errs {
 				if e != nil {
 					// a worker that dies is a determinism/crash observation of its own
